@@ -343,12 +343,13 @@ _EMITS = {
     "Construct": ["construct", "insert", "flips", "remove", "repair", "queries", "serde", "toroidal", "determinism", "failpoints", "faults"],
     "Insert": ["insert", "flips", "remove", "queries", "serde", "toroidal", "determinism", "failpoints"],
     "Verdicts": ["construct", "insert", "flips", "remove", "repair", "queries", "serde", "toroidal", "verdictwalk", "repairwalk"],
-    "Remove": ["remove", "flips", "queries", "serde", "failpoints"],
+    "Remove": ["remove", "flips", "repair", "queries", "serde", "failpoints"],
+    "InsertCopy": ["insert", "remove"],
     "Flip": ["flips", "repair", "queries", "serde", "failpoints", "verdictwalk", "repairwalk"],
     "Repair": ["repair", "queries", "serde", "failpoints", "verdictwalk", "repairwalk"],
 }
 SECONDARY = {"C01": _EMITS["Construct"], "C02": _EMITS["Insert"], "C04": _EMITS["Verdicts"], "C06": _EMITS["Remove"],
-             "C07": _EMITS["Flip"], "C08": _EMITS["Repair"]}
+             "C07": _EMITS["Flip"], "C08": _EMITS["Repair"], "C09": _EMITS["InsertCopy"]}
 STAGE_FAMILIES = {"C02": ["inserttxn"], "C03": ["inserttxn", "removetxn"], "C06": ["removetxn"], "C09": ["caches"], "C11": ["caches"],
                   "C18": ["measures"], "C08": ["repairtrace"]}
 SECONDARY_SHARE = 0.3
